@@ -1,1 +1,453 @@
-// verification hook for h263/src/parser/picture.rs (compiled only under cfg(kani) or cfg(ruffle_rs_h263_rs_verif))
+// Hook module of h263/src/parser/picture.rs.  Property C06.
+//  * Kani: the lazy_static / bitflags facts the Verus picture unit assumes (R6, A-BITFLAGS)
+//  * native (witness search and the part of C06 Verus does not prove - the assembly of the standard header record): a header ENCODER
+//    written from H.263 5.1 / the Sorenson Spark layout; every field value is drawn from the witness bytes, encoded, parsed by the real
+//    decode_picture and compared field by field, together with the number of bits consumed.
+#![allow(dead_code, unused_imports)]
+use super::*;
+
+include!("/verif/hooks/common.rs");
+
+fn h_option_mask<S: Src>(s: &mut S) {
+    chk!(s, (*OPPTYPE_OPTIONS).bits() == 0x1FF8, "picture.OPPTYPE_OPTIONS.value: bits 3..=12");
+    s.reach();
+}
+fn h_bitflags_model2<S: Src>(s: &mut S) {
+    let (a, b) = (s.u8() & 0x3F, s.u8() & 0x3F);
+    let (fa, fb) = (PlusPTypeFollower::from_bits_truncate(a), PlusPTypeFollower::from_bits_truncate(b));
+    let mut acc = fa;
+    acc |= fb;
+    chk!(s, acc.bits() == (a | b) && (fa | fb).bits() == (a | b) && fa.contains(fb) == (a & b == b) && PlusPTypeFollower::empty().bits() == 0, "bitflags.PlusPTypeFollower: |, |=, contains, empty");
+    chk!(s, PlusPTypeFollower::HAS_CUSTOM_FORMAT.bits() == 1 && PlusPTypeFollower::HAS_CUSTOM_CLOCK.bits() == 2 && PlusPTypeFollower::HAS_MOTION_VECTOR_RANGE.bits() == 4
+            && PlusPTypeFollower::HAS_SLICE_STRUCTURED_SUBMODE.bits() == 8 && PlusPTypeFollower::HAS_REFERENCE_LAYER_NUMBER.bits() == 16 && PlusPTypeFollower::HAS_REFERENCE_PICTURE_SELECTION_MODE.bits() == 32,
+         "bitflags.PlusPTypeFollower.constants");
+    let mut sm = SliceSubmode::empty();
+    sm |= SliceSubmode::RECTANGULAR_SLICES;
+    chk!(s, sm.bits() == 1 && SliceSubmode::ARBITRARY_ORDER.bits() == 2 && SliceSubmode::empty().bits() == 0, "bitflags.SliceSubmode");
+    let mut rm = ReferencePictureSelectionMode::empty();
+    rm |= ReferencePictureSelectionMode::REQUEST_ACKNOWLEDGEMENT;
+    chk!(s, rm.bits() == 4 && ReferencePictureSelectionMode::RESERVED.bits() == 1 && ReferencePictureSelectionMode::REQUEST_NEGATIVE_ACKNOWLEDGEMENT.bits() == 2, "bitflags.ReferencePictureSelectionMode");
+    s.reach();
+}
+
+// ---------------------------------------------------------------------------------------------------------------------------------
+#[cfg(not(kani))]
+struct Bw {
+    buf: Vec<u8>,
+    pos: usize,
+}
+#[cfg(not(kani))]
+impl Bw {
+    fn put(&mut self, val: u32, n: usize) {
+        for k in 0..n {
+            if self.pos / 8 >= self.buf.len() {
+                self.buf.push(0);
+            }
+            let bit = ((val >> (n - 1 - k)) & 1) as u8;
+            self.buf[self.pos / 8] |= bit << (7 - (self.pos % 8));
+            self.pos += 1;
+        }
+    }
+}
+#[cfg(not(kani))]
+fn blank(options: PictureOption, format: Option<SourceFormat>) -> Picture {
+    Picture {
+        version: None, temporal_reference: 0, format, options, has_plusptype: true, has_opptype: false, picture_type: PictureTypeCode::PFrame,
+        motion_vector_range: None, slice_submode: None, scalability_layer: None, reference_picture_selection_mode: None, prediction_reference: None,
+        backchannel_message: None, reference_picture_resampling: None, quantizer: 1, multiplex_bitstream: None, pb_reference: None, pb_quantizer: None, extra: Vec::new(),
+    }
+}
+#[cfg(not(kani))]
+fn type_name(t: &PictureTypeCode) -> String {
+    format!("{:?}", t)
+}
+
+// standard H.263 header: encode per 5.1, parse, compare
+#[cfg(not(kani))]
+fn h_hdr_std_dyn(s: &mut RSrc) {
+    let mut bw = Bw { buf: Vec::new(), pos: 0 };
+    // k bits of a preceding picture are consumed first; then fewer than eight zero stuffing bits up to the byte boundary
+    let stuffing = (s.u8() % 8) as usize;
+    let lead = (8 - stuffing) % 8;
+    bw.put(0xFF, lead);
+    bw.put(0, stuffing);
+    bw.put(1, 17); // 0000 0000 0000 0000 1
+    bw.put(0, 5);
+    let tr = s.u8() as u32;
+    bw.put(tr, 8);
+    // PTYPE
+    let (split, doc, freeze) = (s.bool(), s.bool(), s.bool());
+    bw.put(1, 1);
+    bw.put(0, 1);
+    bw.put(split as u32, 1);
+    bw.put(doc as u32, 1);
+    bw.put(freeze as u32, 1);
+    let scal = s.bool();
+    let use_plus = s.u8() % 3 != 0;
+    let mut exp_opts: u32 = (split as u32) | (doc as u32) << 1 | (freeze as u32) << 2;
+    let exp_format: Option<SourceFormat>;
+    let exp_type: String;
+    let mut exp_mvr: Option<bool> = None; // Some(true) = Extended
+    let mut exp_sss: Option<u8> = None;
+    let mut exp_layer: Option<(u8, Option<u8>)> = None;
+    let mut exp_rpsm: Option<u8> = None;
+    let mut exp_pref: Option<u16> = None;
+    let exp_mux: Option<u8>;
+    let mut exp_tr = tr as u16;
+    let mut has_opp = false;
+    let mut pcf = false;
+    let mut prev: Option<Picture> = None;
+    let mut rps_in_force = false;
+    let is_pb: bool;
+    let fmt_of = |c: u32| match c {
+        1 => SourceFormat::SubQcif,
+        2 => SourceFormat::QuarterCif,
+        3 => SourceFormat::FullCif,
+        4 => SourceFormat::FourCif,
+        5 => SourceFormat::SixteenCif,
+        _ => SourceFormat::Reserved,
+    };
+    if !use_plus {
+        let src = 1 + (s.u8() % 6) as u32; // 001..110
+        bw.put(src, 3);
+        let inter = s.bool();
+        let (umv, sac, ap, pb) = (s.bool(), s.bool(), s.bool(), s.bool());
+        bw.put(inter as u32, 1); // bit 9: 0 INTRA, 1 INTER
+        bw.put(umv as u32, 1);
+        bw.put(sac as u32, 1);
+        bw.put(ap as u32, 1);
+        bw.put(pb as u32, 1);
+        exp_opts |= (umv as u32) << 3 | (sac as u32) << 4 | (ap as u32) << 5;
+        exp_format = Some(fmt_of(src));
+        exp_type = if pb { "PbFrame".into() } else if inter { "PFrame".into() } else { "IFrame".into() };
+        is_pb = pb;
+    } else {
+        bw.put(7, 3);
+        let ufep = s.bool();
+        bw.put(ufep as u32, 3);
+        let mut custom = false;
+        if ufep {
+            has_opp = true;
+            let src = (s.u8() % 8) as u32;
+            bw.put(src, 3);
+            custom = src == 6;
+            pcf = s.bool();
+            bw.put(pcf as u32, 1);
+            let flags: [bool; 10] = [s.bool(), s.bool(), s.bool(), s.bool(), s.bool(), s.bool(), s.bool(), s.bool(), s.bool(), false /* MQ makes nothing here but keep 0 */];
+            for (i, f) in flags.iter().enumerate() {
+                bw.put(*f as u32, 1);
+                exp_opts |= (*f as u32) << (3 + i);
+            }
+            bw.put(0b1000, 4);
+            exp_format = if custom { None } else { Some(fmt_of(if src == 0 || src == 7 { 6 } else { src })) };
+            rps_in_force = flags[6];
+        } else {
+            // inherited OPPTYPE modes from the previous header (no RPR / format so that no resampling is demanded)
+            let pb = (s.u16() as u32 & 0x1FF8) & !0x200u32 | if s.bool() { 0x200 } else { 0 };
+            prev = Some(blank(PictureOption::from_bits_truncate(pb | 0x7), None));
+            exp_opts |= pb;
+            exp_format = None;
+            rps_in_force = pb & 0x200 != 0;
+        }
+        let tcode = (s.u8() % 8) as u32;
+        bw.put(tcode, 3);
+        let (rru, rtype) = (s.bool(), s.bool());
+        bw.put(0, 1); // RPR off (RPRP is not implemented)
+        bw.put(rru as u32, 1);
+        bw.put(rtype as u32, 1);
+        bw.put(0b001, 3);
+        exp_opts |= (rru as u32) << 14 | (rtype as u32) << 15;
+        exp_type = match tcode {
+            0 => "IFrame".into(),
+            1 => "PFrame".into(),
+            2 => "ImprovedPbFrame".into(),
+            3 => "BFrame".into(),
+            4 => "EiFrame".into(),
+            5 => "EpFrame".into(),
+            r => format!("Reserved({})", r),
+        };
+        is_pb = tcode == 2;
+        // CPM / PSBI
+        let cpm = s.bool();
+        bw.put(cpm as u32, 1);
+        let psbi = (s.u8() % 4) as u32;
+        if cpm {
+            bw.put(psbi, 2);
+        }
+        let mux_early = if cpm { Some(psbi as u8) } else { None };
+        let mut fmt_custom: Option<SourceFormat> = None;
+        if ufep && custom {
+            let par = 1 + (s.u8() % 15) as u32;
+            let pwi = (s.u16() % 512) as u32;
+            let phi = (s.u16() % 512) as u32;
+            bw.put(par, 4);
+            bw.put(pwi, 9);
+            bw.put(1, 1);
+            bw.put(phi, 9);
+            let par_v = match par {
+                1 => PixelAspectRatio::Square,
+                2 => PixelAspectRatio::Par12_11,
+                3 => PixelAspectRatio::Par10_11,
+                4 => PixelAspectRatio::Par16_11,
+                5 => PixelAspectRatio::Par40_33,
+                15 => {
+                    let (pw, ph) = (1 + s.u8() % 255, 1 + s.u8() % 255);
+                    bw.put(pw as u32, 8);
+                    bw.put(ph as u32, 8);
+                    PixelAspectRatio::Extended { par_width: pw, par_height: ph }
+                }
+                r => PixelAspectRatio::Reserved(r as u8),
+            };
+            fmt_custom = Some(SourceFormat::Extended(CustomPictureFormat { pixel_aspect_ratio: par_v, picture_width_indication: ((pwi + 1) * 4) as u16, picture_height_indication: (phi * 4) as u16 }));
+        }
+        let umv_now = ufep && exp_opts & 0x8 != 0;
+        let ss_now = ufep && exp_opts & 0x100 != 0;
+        let rps_now = ufep && exp_opts & 0x200 != 0;
+        if ufep && pcf {
+            let c = s.u8();
+            bw.put(c as u32, 8);
+            let etr = (s.u8() % 4) as u32;
+            bw.put(etr, 2);
+            exp_tr = (etr << 8) as u16 | tr as u16;
+        }
+        if umv_now {
+            let limited = s.bool();
+            if limited {
+                bw.put(1, 1);
+            } else {
+                bw.put(0b01, 2);
+            }
+            exp_mvr = Some(limited);
+        }
+        if ss_now {
+            let (rect, arb) = (s.bool(), s.bool());
+            bw.put(rect as u32, 1); // SSS bit 1: rectangular slices
+            bw.put(arb as u32, 1); // SSS bit 2: arbitrary slice ordering
+            exp_sss = Some(rect as u8 | (arb as u8) << 1);
+        }
+        if scal {
+            let el = s.u8() % 16;
+            bw.put(el as u32, 4);
+            let rl = s.u8() % 16;
+            if ufep {
+                bw.put(rl as u32, 4);
+            }
+            exp_layer = Some((el, if ufep { Some(rl) } else { None }));
+        }
+        if rps_now {
+            let (b1, nack, ack) = (s.bool(), s.bool(), s.bool());
+            bw.put(b1 as u32, 1);
+            bw.put(nack as u32, 1);
+            bw.put(ack as u32, 1);
+            exp_rpsm = Some((!b1) as u8 | (nack as u8) << 1 | (ack as u8) << 2);
+        }
+        if rps_in_force {
+            let trpi = s.bool();
+            bw.put(trpi as u32, 1);
+            if trpi {
+                let trp = s.u16() % 1024;
+                bw.put(trp as u32, 10);
+                exp_pref = Some(trp);
+            }
+            bw.put(0b01, 2); // BCI: no back-channel message
+        }
+        let q = s.u8() % 32;
+        bw.put(q as u32, 5);
+        finish_std(s, bw, stuffing, scal, prev, exp_tr, if ufep && custom { fmt_custom } else { exp_format }, exp_opts, true, has_opp, exp_type, exp_mvr, exp_sss, exp_layer, exp_rpsm, exp_pref, q, mux_early, false, is_pb, pcf);
+        return;
+    }
+    if scal {
+        // 5.1.11: ELNUM is present whenever the scalability mode is in use (RLNUM only with UFEP = 001)
+        let el = s.u8() % 16;
+        bw.put(el as u32, 4);
+        exp_layer = Some((el, None));
+    }
+    let q = s.u8() % 32;
+    bw.put(q as u32, 5);
+    let cpm = s.bool();
+    bw.put(cpm as u32, 1);
+    let psbi = (s.u8() % 4) as u32;
+    if cpm {
+        bw.put(psbi, 2);
+    }
+    exp_mux = if cpm { Some(psbi as u8) } else { None };
+    finish_std(s, bw, stuffing, scal, prev, exp_tr, exp_format, exp_opts, false, false, exp_type, exp_mvr, exp_sss, exp_layer, exp_rpsm, exp_pref, q, exp_mux, true, is_pb, false);
+}
+
+#[cfg(not(kani))]
+#[allow(clippy::too_many_arguments)]
+fn finish_std(s: &mut RSrc, mut bw: Bw, stuffing: usize, scal: bool, prev: Option<Picture>, exp_tr: u16, exp_format: Option<SourceFormat>, exp_opts: u32, has_plus: bool, has_opp: bool,
+              exp_type: String, exp_mvr: Option<bool>, exp_sss: Option<u8>, exp_layer: Option<(u8, Option<u8>)>, exp_rpsm: Option<u8>, exp_pref: Option<u16>, q: u8, exp_mux: Option<u8>,
+              _late_cpm: bool, is_pb: bool, pcf: bool) {
+    let mut exp_pb: Option<(u8, u8)> = None;
+    if is_pb {
+        let n = if pcf { 5 } else { 3 };
+        let trb = s.u8() % (1 << n);
+        let dbq = s.u8() % 4;
+        bw.put(trb as u32, n);
+        bw.put(dbq as u32, 2);
+        exp_pb = Some((trb, dbq));
+    }
+    let npei = (s.u8() % 3) as usize;
+    let mut extra = Vec::new();
+    for _ in 0..npei {
+        let b = s.u8();
+        bw.put(1, 1);
+        bw.put(b as u32, 8);
+        extra.push(b);
+    }
+    bw.put(0, 1);
+    let end = bw.pos;
+    bw.put(0xA5, 8); // trailing data that must not be consumed
+    let _ = stuffing;
+    let mut opts = DecoderOption::empty();
+    if scal {
+        opts |= DecoderOption::USE_SCALABILITY_MODE;
+    }
+    let mut reader = H263Reader::from_source(&bw.buf[..]);
+    reader.skip_bits(((8 - stuffing) % 8) as u32).unwrap();
+    let r = decode_picture(&mut reader, opts, prev.as_ref());
+    match r {
+        Ok(Some(p)) => {
+            chk!(s, p.version.is_none() && p.temporal_reference == exp_tr, "picture.decode_picture.std_tr: temporal reference (with ETR as the two high bits)");
+            chk!(s, p.format == exp_format, "picture.decode_picture.std_format: source format / custom picture format (PAR, width (PWI+1)*4, height PHI*4)");
+            chk!(s, p.options.bits() == exp_opts, "picture.decode_picture.std_options: PTYPE / OPPTYPE / MPPTYPE option bits, inherited modes when UFEP = 000");
+            chk!(s, p.has_plusptype == has_plus && p.has_opptype == has_opp, "picture.decode_picture.std_plus_flags");
+            chk!(s, type_name(&p.picture_type) == exp_type, "picture.decode_picture.std_type: picture coding type (PTYPE bit 9: 0 INTRA, 1 INTER; MPPTYPE bits 1-3)");
+            chk!(s, p.motion_vector_range.as_ref().map(|m| matches!(m, MotionVectorRange::Extended)) == exp_mvr, "picture.decode_picture.std_uui");
+            chk!(s, p.slice_submode.as_ref().map(|m| m.bits()) == exp_sss, "picture.decode_picture.std_sss: SSS bit 1 rectangular slices, bit 2 arbitrary ordering");
+            chk!(s, p.scalability_layer.as_ref().map(|l| (l.enhancement, l.reference)) == exp_layer, "picture.decode_picture.std_layer: ELNUM / RLNUM");
+            chk!(s, p.reference_picture_selection_mode.as_ref().map(|m| m.bits()) == exp_rpsm, "picture.decode_picture.std_rpsmf");
+            chk!(s, p.prediction_reference == exp_pref && p.backchannel_message.is_none() && p.reference_picture_resampling.is_none(), "picture.decode_picture.std_trp");
+            chk!(s, p.quantizer == q && p.multiplex_bitstream == exp_mux, "picture.decode_picture.std_pquant_cpm");
+            let pbq = p.pb_quantizer.as_ref().map(|x| match x {
+                BPictureQuantizer::Five => 0u8,
+                BPictureQuantizer::Six => 1,
+                BPictureQuantizer::Seven => 2,
+                BPictureQuantizer::Eight => 3,
+            });
+            chk!(s, p.pb_reference == exp_pb.map(|x| x.0) && pbq == exp_pb.map(|x| x.1), "picture.decode_picture.std_trb_dbquant");
+            chk!(s, p.extra == extra, "picture.decode_picture.std_pei: extra-information bytes");
+            let rest: u8 = reader.read_bits(8).unwrap_or(0);
+            let _ = end;
+            chk!(s, rest == 0xA5, "picture.decode_picture.std_len: exactly the header's bits are consumed");
+        }
+        Ok(None) => {
+            chk!(s, false, "picture.decode_picture.std_accept: a valid header is not reported as 'not a picture'");
+        }
+        Err(e) => {
+            if std::env::var("VERIF_DEBUG").is_ok() {
+                println!("DEBUG std header rejected: {:?} scal={} has_plus={} has_opp={} type={} opts={:#x}", e, scal, has_plus, has_opp, exp_type, exp_opts);
+            }
+            chk!(s, false, "picture.decode_picture.std_accept: a valid header is parsed");
+        }
+    }
+    s.reach();
+}
+
+// Sorenson Spark header
+#[cfg(not(kani))]
+fn h_hdr_sor_dyn(s: &mut RSrc) {
+    let mut bw = Bw { buf: Vec::new(), pos: 0 };
+    let stuffing = (s.u8() % 8) as usize;
+    let lead = (8 - stuffing) % 8;
+    bw.put(0xFF, lead);
+    bw.put(0, stuffing);
+    bw.put(1, 17);
+    let ver = s.u8() % 32;
+    bw.put(ver as u32, 5);
+    let tr = s.u8();
+    bw.put(tr as u32, 8);
+    let code = s.u8() % 8;
+    bw.put(code as u32, 3);
+    let sq = |w: u16, h: u16| SourceFormat::Extended(CustomPictureFormat { pixel_aspect_ratio: PixelAspectRatio::Square, picture_width_indication: w, picture_height_indication: h });
+    let fmt = match code {
+        0 => {
+            let (w, h) = (s.u8(), s.u8());
+            bw.put(w as u32, 8);
+            bw.put(h as u32, 8);
+            sq(w as u16, h as u16)
+        }
+        1 => {
+            let (w, h) = (s.u16(), s.u16());
+            bw.put(w as u32, 16);
+            bw.put(h as u32, 16);
+            sq(w, h)
+        }
+        2 => SourceFormat::FullCif,
+        3 => SourceFormat::QuarterCif,
+        4 => SourceFormat::SubQcif,
+        5 => sq(320, 240),
+        6 => sq(160, 120),
+        _ => SourceFormat::Reserved,
+    };
+    let t = s.u8() % 4;
+    bw.put(t as u32, 2);
+    let deblock = s.bool();
+    bw.put(deblock as u32, 1);
+    let q = s.u8() % 32;
+    bw.put(q as u32, 5);
+    let npei = (s.u8() % 3) as usize;
+    let mut extra = Vec::new();
+    for _ in 0..npei {
+        let b = s.u8();
+        bw.put(1, 1);
+        bw.put(b as u32, 8);
+        extra.push(b);
+    }
+    bw.put(0, 1);
+    bw.put(0xA5, 8);
+    let mut reader = H263Reader::from_source(&bw.buf[..]);
+    reader.skip_bits(lead as u32).unwrap();
+    match decode_picture(&mut reader, DecoderOption::SORENSON_SPARK_BITSTREAM, None) {
+        Ok(Some(p)) => {
+            let tn = match t {
+                0 => "IFrame".to_string(),
+                1 => "PFrame".into(),
+                2 => "DisposablePFrame".into(),
+                r => format!("Reserved({})", r),
+            };
+            chk!(s, p.version == Some(ver) && p.temporal_reference == tr as u16 && p.format == Some(fmt) && type_name(&p.picture_type) == tn, "picture.decode_picture.sorenson_fields: version, TR, size code / custom size, picture type");
+            chk!(s, p.options.bits() == if deblock { 0x10000 } else { 0 } && p.quantizer == q && p.extra == extra && !p.has_plusptype, "picture.decode_picture.sorenson_fields2: deblocking flag, quantizer, extra information");
+            let rest: u8 = reader.read_bits(8).unwrap_or(0);
+            chk!(s, rest == 0xA5, "picture.decode_picture.sorenson_len: exactly the header's bits are consumed");
+        }
+        _ => {
+            chk!(s, false, "picture.decode_picture.sorenson_accept: a valid header is parsed");
+        }
+    }
+    s.reach();
+}
+
+#[cfg(kani)]
+mod proofs {
+    use super::*;
+    #[kani::proof]
+    #[kani::unwind(8)]
+    fn option_mask() {
+        h_option_mask(&mut KSrc)
+    }
+    #[kani::proof]
+    fn bitflags_model2() {
+        h_bitflags_model2(&mut KSrc)
+    }
+}
+
+#[cfg(all(test, not(kani)))]
+mod replay {
+    use super::*;
+    fn dispatch(name: &str, r: &mut RSrc) -> bool {
+        match name {
+            "option_mask" => h_option_mask(r),
+            "bitflags_model2" => h_bitflags_model2(r),
+            "hdr_std_dyn" => h_hdr_std_dyn(r),
+            "hdr_sor_dyn" => h_hdr_sor_dyn(r),
+            _ => return false,
+        }
+        true
+    }
+    #[test]
+    fn verif_replay() {
+        verif_replay_main(dispatch)
+    }
+}
